@@ -13,6 +13,7 @@ import (
 	"verifharness/drv/c06"
 	"verifharness/drv/c07"
 	"verifharness/drv/c08"
+	"verifharness/drv/c09"
 	"verifharness/drv/c10"
 	"verifharness/drv/c11"
 	"verifharness/drv/c12"
@@ -86,6 +87,11 @@ func main() {
 		c12.Run(os.Args[2], os.Args[3])
 	case "c10":
 		c10.Run(os.Args[2], os.Args[3])
+	case "c09":
+		c09.Run(os.Args[2], os.Args[3])
+	case "c09srv":
+		n, _ := strconv.Atoi(os.Args[3])
+		c09.RunServers(os.Args[2], n)
 	case "c19x":
 		a := os.Args
 		c19.Explicit(a[2], a[3], atoi(a[4]), atoi(a[5]), atoi(a[6]), a[7] == "1")
